@@ -444,3 +444,12 @@ func verifCollLastCasAt(db *sql.DB, snap int, id int64) int64 {
 	}
 	return 0
 }
+
+func verifPrefer(c bool) {}
+
+func verifIfI64(c bool, a, b int64) int64 {
+	if c {
+		return a
+	}
+	return b
+}
